@@ -56,15 +56,34 @@ class Unknown(Exception):
     pass
 
 
+def _resolve_inside(e: ast.AST, direction_exprs: set, tt: str) -> ast.AST:
+    """a copy of e with every conditional expression on a direction test resolved, wherever it sits"""
+    class T(ast.NodeTransformer):
+        def visit_IfExp(self, n):
+            v = eval_test(n.test, direction_exprs, tt)
+            if v is not None:
+                return self.visit(n.body if v else n.orelse)
+            return self.generic_visit(n)
+    return ast.fix_missing_locations(T().visit(copy.deepcopy(e)))
+
+
 def eval_expr(e: ast.AST, direction_exprs: set, tt: str) -> ast.AST:
-    """Resolve IfExp on direction tests."""
+    """Resolve conditional expressions on direction tests (the nodes of e itself are returned wherever possible: callers
+    compare them by identity).  A direction conditional inside the *test* of a data conditional -
+    `(v if MIN else -v) >= 0` - is resolved in a copy of that test; a test that still mentions the direction is Unknown."""
     if isinstance(e, ast.IfExp):
         v = eval_test(e.test, direction_exprs, tt)
         if v is None:
+            test = e.test
+            if any(isinstance(x, ast.IfExp) for x in ast.walk(e.test)):
+                test = _resolve_inside(e.test, direction_exprs, tt)
+                v = eval_test(test, direction_exprs, tt)
+                if v is not None:
+                    return eval_expr(e.body if v else e.orelse, direction_exprs, tt)
             # not a direction test (e.g. isinstance(value, list)): keep the conditional, resolve inside the branches
-            if any(norm(n) in direction_exprs for n in ast.walk(e.test)):
+            if any(norm(n) in direction_exprs for n in ast.walk(test)):
                 raise Unknown(f"test `{norm(e.test)}` mixes the direction with other conditions")
-            return ast.IfExp(test=e.test, body=eval_expr(e.body, direction_exprs, tt),
+            return ast.IfExp(test=test, body=eval_expr(e.body, direction_exprs, tt),
                              orelse=eval_expr(e.orelse, direction_exprs, tt))
         return eval_expr(e.body if v else e.orelse, direction_exprs, tt)
     return e
@@ -127,9 +146,12 @@ def eval_function(fi_node, direction_exprs: set, tt: str) -> list:
                 out.append(eval_expr(_subst(st.value, env), direction_exprs, tt) if st.value is not None else None)
                 return True
             if isinstance(st, ast.If):
-                v = eval_test(_subst(st.test, env), direction_exprs, tt)
+                ptest = _subst(st.test, env)
+                if any(isinstance(x_, ast.IfExp) for x_ in ast.walk(ptest)):
+                    ptest = _resolve_inside(ptest, direction_exprs, tt)          # direction conditionals inside the test
+                v = eval_test(ptest, direction_exprs, tt)
                 if v is None:
-                    test = _subst(st.test, env)
+                    test = ptest
                     if any(norm(n) in direction_exprs for n in ast.walk(test)):
                         raise Unknown(f"test `{norm(st.test)}` mixes the direction with other conditions")
                     # a data test (e.g. isinstance(value, list)): both branches are possible, every reachable return counts
